@@ -14,7 +14,7 @@ from cfg import CFG
 from flow import Flow, call_sites, arg_local, last_seg
 from tables import str_arms, exclusive_regions, enum_switches, region_aggregates, region_calls, transitive_callees
 from byteclass import outcome_partition, classify, arg_subject, ret_shape, fmt_set, FULL, shape, predicate_sets
-from sym import PathSym, walk, strip
+from sym import PathSym, walk, strip, show
 
 SPEC = json.load(open(os.path.join(os.path.dirname(os.path.abspath(__file__)), "..", "spec", "iso32000.json")))
 SF = "enc::StreamFilter"
@@ -156,13 +156,33 @@ def rule_pairing(ctx, f):
     if b is None:
         ctx.lost("C05-G-pair", "<StreamInfo<T> as Object>::from_primitive")
         return
-    fl = Flow(b)
-    cs = call_sites(b, lambda nm, t: last_seg(nm) == "from_kind_and_params")
-    ctx.floor("C05-G-pair", len(cs), 2, "from_kind_and_params call sites (filters, file filters)")
+    # the pairing loop may be written as `for (i, filter) in ..enumerate()` or as `.enumerate().map(|(i, filter)| ..)`
+    sites = []
+    for body in f.with_closures(b["id"]):
+        for bi, t in call_sites(body, lambda nm, t: last_seg(nm) == "from_kind_and_params"):
+            sites.append((body, bi, t))
+    ctx.floor("C05-G-pair", len(sites), 2, "from_kind_and_params call sites (filters, file filters)")
     keys = {}
-    for k, (bi, t) in enumerate(cs):
+    for k, (body, bi, t) in enumerate(sites):
+        fl = Flow(body)
         name_l = arg_local(t, 0)
         par_l = arg_local(t, 1)
+        if body["kind"] == "Closure":
+            # closure over one enumerate() step: the index and the filter name are both parts of the closure's own parameter
+            gets = [a for a in fl.origins(par_l) if a[0] == "call" and last_seg(a[1]) == "get" and "slice" in a[1]]
+            okc = False
+            whyc = "no slice::get in the parameter's provenance"
+            for g in gets:
+                il = arg_local(g[3], 1)
+                ia = fl.origins(il) if il is not None else []
+                na = fl.origins(name_l) if name_l is not None else []
+                okc = any(a[0] == "arg" and a[1] == 2 for a in ia) and any(a[0] == "arg" and a[1] == 2 for a in na) and not [a for a in ia if a[0] == "const"]
+                whyc = "index from the closure parameter: %s, name from the closure parameter: %s" % (any(a[0] == "arg" and a[1] == 2 for a in ia), any(a[0] == "arg" and a[1] == 2 for a in na))
+            par = f.bodies.get(body.get("parent") or "")
+            enum = par is not None and any(last_seg(F.callee_name(pt)) == "enumerate" for _, pt in F.calls(par))
+            ctx.check(okc and enum, "C05-G-pair", b["id"] + "#pair-%d" % k, "filter and decode parameters are not taken at the same index: " + whyc, t["span"],
+                      detail="params = decode_params.get(i) with (i, filter) from one enumerate() step")
+            continue
         nexts_name = {a[2] for a in fl.origins(name_l) if a[0] == "call" and last_seg(a[1]) == "next"}
         gets = [a for a in fl.origins(par_l) if a[0] == "call" and last_seg(a[1]) == "get" and "slice" in a[1]]
         ok = False
@@ -299,7 +319,16 @@ def rule_bytes(ctx, f):
         ctx.lost("C05-TABLE", "enc::run_length_decode")
     else:
         def subj(e):
-            return isinstance(e, tuple) and e[0] == "index"
+            # the length byte: data[c], or the payload of data.get(c) (`let Some(&length) = data.get(c) else { break }`) -- not data.get(c + 1)
+            if not isinstance(e, tuple):
+                return False
+            if e[0] == "index":
+                return True
+            x = e
+            while isinstance(x, tuple) and x[0] in ("deref", "ref", "cast", "field", "downcast"):
+                x = x[1]
+            # the payload of the look-up itself (not its Some / None discriminant, not an expression that merely contains it)
+            return isinstance(x, tuple) and x[0] == "call" and last_seg(x[1]) == "get" and len(x[2]) == 2 and "Add" not in show(x[2][1]) and e[0] != "call"
 
         def describe(ps, path):
             marks = set()
